@@ -32,11 +32,12 @@ def _props(P):
         "C08": sim("TestC08", (4, 1000, 300), (16, 12000, 3000), also=[equiv("CreatePromise,CreatePromiseAndTask,CreateCallback,CreateSubscription,ClaimTask,CompleteTask")]),
         "C09": sim("TestC09", (4, 1200, 300), (16, 15000, 3000), also=[equiv("AcquireLock,ReleaseLock,HeartbeatLocks")]),
         "C10": sim("TestC10", (4, 1200, 300), (16, 12000, 3000), also=[equiv("CreateSchedule,ReadSchedule,DeleteSchedule")]),
-        "C11": sim("TestC11", (4, 300, 300), (16, 5000, 3000), regress="TestRegressC11"),
+        "C11": sim("TestC11", (4, 300, 300), (16, 5000, 3000), regress="TestRegressC11",
+                   also=[dict(pkg="kernelq", test="TestC11b", quick=(2, 12, 300), thorough=(8, 150, 1800), env={})]),
         "C13": P("proc", "TestC13", (3, 4, 600), (12, 40, 3000), extra_env={"VERIF_NEEDS_SERVER": "1", "VERIF_SHRINK": "1ms"}),
         "C14": sim("TestC14", (4, 600, 300), (16, 10000, 3000), also=[equiv("SearchPromises,SearchSchedules")]),
         "C15": front("TestC15", (4, 1500, 300), (8, 20000, 1200)),
-        "C12": P("kernelq", "TestC12", (4, 1500, 300), (16, 6000, 1800)),
+        "C12": P("kernelq", "TestC12", (4, 1500, 300), (16, 6000, 1800), also=[dict(pkg="front", test="TestRefusals", quick=(1, 1, 300), thorough=(1, 1, 600), env={})]),
         "C18": P("pollt", "TestC18", (4, 1500, 300), (16, 6000, 1200)),
         "C19": P("route", "TestC19", (4, 20000, 300), (16, 100000, 1200), also=[dict(pkg="route", test="TestC19b", quick=(2, 150, 300), thorough=(8, 1500, 1200), env={})]),
         "C16": store("TestC16", (4, 300, 300), (16, 1200, 2400)),
